@@ -39,6 +39,12 @@ def gen_cases(tier, rng):
             ts = None if r.chance(2, 3) else {"retries": r.below(3)}
             cases.append({"id": "hot/%d/%d" % (s["seed"], j), "hex": assemble(with_ts(s["settings"], ts), evs, s["bz"]),
                           "meta": {"stream": "hot-offsets", "retries": 0 if ts is None else ts["retries"], "n": len(evs)}})
+        for tag, evs in count_field_cases(s):
+            cases.append({"id": "count/%d/%s" % (s["seed"], tag), "hex": assemble(s["settings"], evs, s["bz"]),
+                          "meta": {"stream": "count-fields", "retries": 0, "n": len(evs)}})
+        for j, (tag, evs) in enumerate(reordered_extreme_cases(s, r)):
+            cases.append({"id": "reorder/%d/%d" % (s["seed"], j), "hex": assemble(s["settings"], evs, s["bz"]),
+                          "meta": {"stream": "reordered-extreme", "retries": 0, "n": len(evs)}})
         for j in range(3):
             kind, evs = mutate(base, r)
             cases.append({"id": "mut/%d/%d" % (s["seed"], j), "hex": assemble(s["settings"], evs, s["bz"]),
